@@ -1,6 +1,7 @@
 //! Verification harness for facebook/akd: runs the implementation (from /repo's working tree) on
 //! generated inputs and prints canonical traces for the correspondence with the Coq model, plus
 //! the result of per-property direct oracles.
+mod audits;
 mod dirs;
 mod faultdb;
 mod labels;
@@ -70,6 +71,21 @@ fn main() {
             }
             write!(out, "STAT").unwrap();
             for (k, v) in &cx.stats {
+                write!(out, " {}={}", k, v).unwrap();
+            }
+            writeln!(out).unwrap();
+            writeln!(out, "SUMMARY cases={} oracle_failures={}", cx.cases, cx.fails.len()).unwrap();
+        }
+        "audits" => {
+            let cx = audits::run(arg(&args, 2, 1u64), arg(&args, 3, 0u32));
+            out.write_all(cx.out.as_bytes()).unwrap();
+            for f in &cx.fails {
+                writeln!(out, "ORACLE-FAIL {}", f).unwrap();
+            }
+            let mut st: Vec<_> = cx.stats.iter().collect();
+            st.sort();
+            write!(out, "STAT").unwrap();
+            for (k, v) in st {
                 write!(out, " {}={}", k, v).unwrap();
             }
             writeln!(out).unwrap();
